@@ -34,9 +34,9 @@ pub fn run(seed: u64, tier: &str, w: &mut dyn Write) -> usize {
         many_queries(1, FriReductionStrategy::Fixed(vec![1, 1, 1]), 50, false, 2),
     ];
     if tier == "thorough" {
-        cfgs.push(many_queries(0, FriReductionStrategy::ConstantArityBits(3, 1), 30, true, 2));
+        cfgs.push(many_queries(0, FriReductionStrategy::ConstantArityBits(2, 1), 30, true, 2));   // (arity_bits <= final bits + 1: fri_params asserts it)
         cfgs.push(many_queries(1, FriReductionStrategy::MinSize(Some(2)), 64, false, 2));
-        cfgs.push(many_queries(2, FriReductionStrategy::Fixed(vec![2, 2, 1]), 70, false, 2));
+        cfgs.push(many_queries(2, FriReductionStrategy::Fixed(vec![2, 1]), 70, false, 2));      // (a Fixed schedule must not fold below degree 1: not validated by the library)
     }
     let reps = if tier == "thorough" { 4 } else { 1 };
     let only: Option<usize> = std::env::var("VERIF_ONLY").ok().and_then(|x| x.parse().ok());
